@@ -173,4 +173,37 @@ example : exFs.wf [0] = true := by decide
 example : (parseFiles exFs [0]).reads = [0, 2, 1] := by decide
 example : (parseFiles exFs [0]).errors = [(0, 2)] := by decide
 
+/-- the include statements reported for files that cannot be used do not depend on the order in which the files were read: for
+    two orders of the same set of files the reported sites are the same up to order (with `C19_reach` — the files read are the
+    files reachable from the named ones — they do not depend on the order of the arguments) -/
+theorem C19_bad_sites_order (fs : Fs) (inputs reads reads' : List File) (h : reads.Perm reads') :
+    (badSites fs inputs reads).Perm (badSites fs inputs reads') := by
+  unfold badSites
+  exact List.Perm.flatMap_right _ h
+
+/-- ... and every reported site is an include statement of a file that was read, resolving to a file that cannot be used and
+    was not named -/
+theorem C19_bad_sites_spec (fs : Fs) (inputs reads : List File) (f : File) (idx : Nat) (h : (f, idx) ∈ badSites fs inputs reads) :
+    f ∈ reads ∧ ∃ i t, (fs.incs f)[idx]? = some i ∧ resolve fs.libs i = some t ∧
+      (fs.files[t]?.map (·.ok)).getD false = false ∧ t ∉ inputs := by
+  unfold badSites at h
+  obtain ⟨g, hg, hm⟩ := List.mem_flatMap.mp h
+  obtain ⟨ii, hii, hsome⟩ := List.mem_filterMap.mp hm
+  cases hr : resolve fs.libs ii.1 with
+  | none => rw [hr] at hsome; cases hsome
+  | some t =>
+    rw [hr] at hsome
+    simp only at hsome
+    split at hsome
+    · rename_i hc
+      cases hsome
+      have hget := List.mem_zipIdx_iff_getElem?.mp hii
+      refine ⟨hg, ii.1, t, ?_, hr, ?_, ?_⟩
+      · simpa using hget
+      · have := hc; simp only [Bool.and_eq_true, Bool.not_eq_true'] at this; exact this.1
+      · have := hc; simp only [Bool.and_eq_true, Bool.not_eq_true'] at this
+        intro hmem; have : inputs.contains t = true := by simpa using hmem
+        simp_all
+    · cases hsome
+
 end Circomspect.C19
